@@ -77,15 +77,19 @@ class ParserEngine(ParserCore, CanParse):
         assert isinstance(config, ParserConfig)
         config = config.override(start=start, **settings)
         assert isinstance(config, ParserConfig)
-        self._active_config = config
-
-        self._initialize_caches()
-        self.heart = config.heart
-        self.lastbeat_time = 0.0
-        self.lastbeat_pos: int = 0
-        self._furthest_exception = None
-        self.update_tracer()
+        # NOTE everything from here on is undone in the finally clause: an exception
+        #   or an interrupt between these assignments and the parse itself must not
+        #   leave this call's configuration as the one of the next call
         try:
+            self._active_config = config
+
+            self._initialize_caches()
+            self.heart = config.heart
+            self.lastbeat_time = 0.0
+            self.lastbeat_pos: int = 0
+            self._furthest_exception = None
+            self.update_tracer()
+
             if isinstance(text, Text):
                 input = text
             else:
